@@ -376,9 +376,6 @@ def run_algo(pid, algo, tier, seed):
         elif "ZONE_IncompleteSimplex" in clauses:
             clauses = clauses - {"ZONE_IncompleteSimplex"}
             key = "epa:incomplete-gjk-simplex"
-        elif "ZONE_CapacityGeneral" in clauses:
-            clauses = clauses - {"ZONE_CapacityGeneral"}
-            key = "epa:capacity-general-orientation"
         else:
             key = f"{algo}:{m['clsA']}-{m['clsB']}:{'+'.join(sorted(clauses))}:{chash([m['A'], m['B'], m['lift']])}"
         res.violation(key, "+".join(sorted(clauses)), f"{algo}({m['clsA']} {m['A']}, {m['clsB']} {m['B']}) lift_s={m['lift'][0]:.4g} " +
